@@ -20,7 +20,8 @@ EXTENDS Integers, Sequences, FiniteSets, TLC
 
 CONSTANTS Streams, Procs, NEvents,    \* events 1..NEvents; the stream of each is chosen freely
           M_Recharge,                \* tryDetach re-charges a stream that received events while detaching
-          M_SignalOnPut              \* put wakes the blocked owner (cond.Signal)
+          M_SignalOnPut,             \* put wakes the blocked owner (cond.Signal)
+          M_UnblockOnlyIfEmpty       \* tryUnblock injects a time-out only into a stream that is still empty
 
 VARIABLES q, cur, away, com, att, det,        \* per stream
           charged,                            \* LIFO list of streams
@@ -107,10 +108,11 @@ BlockGet(p) == /\ pc[p] = "blockget" /\ q[ps[p]] # <<>> /\ panic = ""
                /\ UNCHANGED <<cur, com, att, det, charged, nput, sOf, seqOf, ps>>
 
 \* streamer heartbeat -> tryUnblock on a blocked, still empty stream
-TryUnblock(s) == /\ s \in blocked /\ q[s] = <<>> /\ panic = ""
+TryUnblock(s) == /\ s \in blocked /\ (q[s] = <<>> \/ ~M_UnblockOnlyIfEmpty) /\ panic = ""
                  /\ (IF away[s] # com[s] THEN panic' = "why events are different?" ELSE UNCHANGED panic)
-                 /\ q' = [q EXCEPT ![s] = <<TO>>]
-                 /\ UNCHANGED <<cur, away, com, att, det, charged, blocked, nput, where, sOf, seqOf, pc, ps, pe>>
+                 /\ q' = [q EXCEPT ![s] = <<TO>>]          \* first = last = time-out event: whatever was queued is overwritten
+                 /\ where' = [e \in Ev |-> IF where[e] = "queued" /\ sOf[e] = s THEN "lost" ELSE where[e]]
+                 /\ UNCHANGED <<cur, away, com, att, det, charged, blocked, nput, sOf, seqOf, pc, ps, pe>>
 
 \* somebody finalizes a taken event: stream.commit (monotone max) + tryDetach when detaching
 Commit(e) == /\ where[e] = "taken" /\ panic = "" /\ \A p \in Procs : ~(pc[p] = "fin" /\ pe[p] = e)
@@ -143,6 +145,7 @@ FairSpec == Spec /\ \A p \in Procs : WF_vars(JoinPop(p) \/ Attach(p) \/ InstantG
 
 -----------------------------------------------------------------------------
 NoCodePanic == panic = ""
+NoEventLost == \A e \in Ev : where[e] # "lost"
 Owners(s) == {p \in Procs : pc[p] \in {"get", "blockget", "fin"} /\ ps[p] = s}
 OneOwner == \A s \in Streams : Cardinality(Owners(s)) <= 1
 InWindow(s) == \E p \in Procs : pc[p] = "attach" /\ ps[p] = s
